@@ -48,20 +48,37 @@ REAL_KANI = os.environ.get("VERIF_REAL_KANI", "/root/.kani/kani-0.68.0")
 
 
 def kani_overlay():
-    """KANI_HOME overlay: Kani's own bundle with `cbmc` replaced by lib/cbmc_wrap.py (per-loop bounds, body cuts)."""
+    """KANI_HOME overlay: Kani's own bundle with (1) `cbmc` replaced by lib/cbmc_wrap.py (per-loop bounds, body
+    cuts) and (2) library/kani/kani_lib.c replaced by lib/kani_lib/kani_lib.c (size-class allocator)."""
     home = os.path.join(SCRATCH, "kani-home")
     k = os.path.join(home, os.path.basename(REAL_KANI))
     wrapper = os.path.join(k, "bin", "cbmc")
+    clib = os.path.join(k, "library", "kani", "kani_lib.c")
     want = "#!/bin/bash\nexec python3 %s \"$@\"\n" % os.path.join(VERIF, "lib", "cbmc_wrap.py")
-    if not (os.path.exists(wrapper) and open(wrapper).read() == want):
+    want_c = open(os.path.join(VERIF, "lib", "kani_lib", "kani_lib.c")).read()
+    ok = (os.path.exists(wrapper) and open(wrapper).read() == want
+          and os.path.exists(clib) and open(clib).read() == want_c
+          and not os.path.islink(os.path.join(k, "bin", "kani-driver")))
+    if not ok:
         shutil.rmtree(home, ignore_errors=True)
         os.makedirs(os.path.join(k, "bin"))
         for n in os.listdir(REAL_KANI):
-            if n != "bin":
+            if n not in ("bin", "library"):
                 os.symlink(os.path.join(REAL_KANI, n), os.path.join(k, n))
         for n in os.listdir(os.path.join(REAL_KANI, "bin")):
-            if n != "cbmc":
+            if n == "kani-driver":
+                # a real copy: the driver locates library/kani/kani_lib.c relative to its own (resolved) path
+                shutil.copy2(os.path.join(REAL_KANI, "bin", n), os.path.join(k, "bin", n))
+            elif n != "cbmc":
                 os.symlink(os.path.join(REAL_KANI, "bin", n), os.path.join(k, "bin", n))
+        os.makedirs(os.path.join(k, "library", "kani"))
+        for n in os.listdir(os.path.join(REAL_KANI, "library")):
+            if n != "kani":
+                os.symlink(os.path.join(REAL_KANI, "library", n), os.path.join(k, "library", n))
+        for n in os.listdir(os.path.join(REAL_KANI, "library", "kani")):
+            if n != "kani_lib.c":
+                os.symlink(os.path.join(REAL_KANI, "library", "kani", n), os.path.join(k, "library", "kani", n))
+        open(clib, "w").write(want_c)
         open(wrapper, "w").write(want)
         os.chmod(wrapper, 0o755)
     return home
@@ -128,17 +145,18 @@ def kani_cmd(build, target_dir, harness_ids, jobs, timeout_s, json_path, extra=N
     return cmd
 
 
-def run_kani(work, build, harnesses, jobs, tier, outdir):
+def run_kani(work, build, harnesses, jobs, tier, outdir, tagname=None):
     """Runs the harnesses of one build configuration; returns dict harness-name -> result."""
     os.makedirs(outdir, exist_ok=True)
     target_dir = os.path.join(SCRATCH, "tgt-" + build)
     ids = {registry.harness_id(h): h for h in harnesses}
     tmax = max(registry.HARNESSES[h].get("timeout", 600) for h in harnesses)
-    json_path = os.path.join(outdir, "kani-%s.json" % build)
+    tagname = tagname or build
+    json_path = os.path.join(outdir, "kani-%s.json" % tagname)
     if os.path.exists(json_path):
         os.remove(json_path)
     cmd = kani_cmd(build, target_dir, list(ids), jobs, tmax, json_path)
-    logp = os.path.join(outdir, "kani-%s.log" % build)
+    logp = os.path.join(outdir, "kani-%s.log" % tagname)
     t0 = time.time()
     with open(logp, "w") as lf:
         try:
@@ -269,6 +287,50 @@ def run_playback(work, build, h, rpath):
     return None, out
 
 
+def tree_key():
+    """Content hash of everything a harness result depends on: /repo's working tree (sources, manifest, lock file),
+    the harness sources, the registry and the tooling of this framework."""
+    import hashlib
+    h = hashlib.sha256()
+    roots = [os.path.join(REPO, "src"), os.path.join(VERIF, "harness"), os.path.join(VERIF, "lib")]
+    files = [os.path.join(REPO, "Cargo.toml"), os.path.join(REPO, "Cargo.lock")]
+    for r in roots:
+        for d, dn, fn in os.walk(r):
+            dn[:] = sorted(x for x in dn if x != "__pycache__")
+            for f in sorted(fn):
+                if not f.endswith(".pyc"):
+                    files.append(os.path.join(d, f))
+    for f in files:
+        h.update(f.encode())
+        try:
+            h.update(open(f, "rb").read())
+        except OSError:
+            h.update(b"<missing>")
+    return h.hexdigest()[:24]
+
+
+def cache_get(key, h):
+    p = os.path.join(SCRATCH, "cache", "%s-%s.json" % (key, h))
+    if os.path.exists(p) and not os.environ.get("VERIF_NOCACHE"):
+        try:
+            r = json.load(open(p))
+            r["cached"] = True
+            return r
+        except Exception:  # noqa
+            return None
+    return None
+
+
+def cache_put(key, h, r):
+    if r.get("status") not in ("success", "failure"):
+        return
+    if r.get("undetermined") or any("unwinding assertion" in f["description"] for f in r.get("failed", [])):
+        return
+    d = os.path.join(SCRATCH, "cache")
+    os.makedirs(d, exist_ok=True)
+    json.dump(r, open(os.path.join(d, "%s-%s.json" % (key, h)), "w"))
+
+
 def load_known():
     p = os.path.join(VERIF, "known_findings.json")
     if not os.path.exists(p):
@@ -338,11 +400,31 @@ def main():
         by_build = {}
         for h in selected:
             by_build.setdefault(registry.HARNESSES[h].get("build", "real"), []).append(h)
+        key = tree_key()
+        for build, hs in list(by_build.items()):
+            fresh = []
+            for h in hs:
+                c = cache_get(key, h)
+                if c is not None:
+                    results[h] = c
+                else:
+                    fresh.append(h)
+            if len(fresh) < len(hs):
+                log("[%s] build=%s: %d harness result(s) reused from this run's cache (identical /repo tree, harness and "
+                    "tooling hash %s)" % (prop, build, len(hs) - len(fresh), key))
+            by_build[build] = fresh
         for build, hs in by_build.items():
-            log("[%s] build=%s: %d harnesses: %s" % (prop, build, len(hs), " ".join(hs)))
-            res, wall = run_kani(work, build, hs, args.jobs, args.tier, outdir)
-            walls[build] = wall
-            results.update(res)
+            light = [h for h in hs if not registry.HARNESSES[h].get("heavy")]
+            heavy = [h for h in hs if registry.HARNESSES[h].get("heavy")]
+            for group, jobs, tagname in ((light, args.jobs, build), (heavy, min(2, args.jobs), build + "-heavy")):
+                if not group:
+                    continue
+                log("[%s] build=%s: %d harnesses (-j %d): %s" % (prop, tagname, len(group), jobs, " ".join(group)))
+                res, wall = run_kani(work, build, group, jobs, args.tier, outdir, tagname)
+                walls[tagname] = wall
+                results.update(res)
+                for h, r in res.items():
+                    cache_put(key, h, r)
 
         violations, known_hits, inconclusive, vacuous = [], [], [], []
         for h in selected:
@@ -382,12 +464,13 @@ def main():
                     vacuous.append((h, missing))
 
         # replay counterexamples natively before reporting them
-        confirmed, unconfirmed = [], []
+        confirmed, unconfirmed, unreplayed = [], [], []
         MAX_REPLAYS = int(os.environ.get("VERIF_MAX_REPLAYS", "2"))
         for h, fails in violations:
             if len(confirmed) >= MAX_REPLAYS:
                 log("[%s] further counterexample in %s (not replayed, %d already confirmed): %s"
                     % (prop, h, len(confirmed), "; ".join(f["description"] for f in fails)))
+                unreplayed.append((h, fails))
                 continue
             build = registry.HARNESSES[h].get("build", "real")
             log("[%s] counterexample in %s: %s -- replaying natively" % (prop, h, "; ".join(f["description"] for f in fails)))
@@ -424,7 +507,7 @@ def main():
             % (prop, args.tier, len(selected), n_ok, len(confirmed), len(known_hits), len(inconclusive), len(vacuous), wall))
         if confirmed:
             return 1
-        if unconfirmed or inconclusive or vacuous:
+        if unconfirmed or inconclusive or vacuous or unreplayed:
             return 2
         return 0
     finally:
@@ -468,6 +551,7 @@ def build_evidence(prop, tier, seed, selected, results, confirmed, unconfirmed, 
                             unwind=spec.get("unwind"), result=r["kani_status"], cbmc_checks=r["n_checks"],
                             failed_checks=[f["description"] for f in r["failed"]],
                             covers=r["covers"], solver_s=cb.get("runtime_decision_procedure_s"),
+                            reused_from_cache=bool(r.get("cached")),
                             vccs=cb.get("vccs_generated"), wall_ms=r.get("duration_ms")))
     ev = dict(
         property_id=prop, tier=tier, seed=seed, level="model_checking",
